@@ -309,7 +309,7 @@ def strategy():
     return case()
 
 
-def checks():
+def _checks():
     return [
         EnumCheck(
             'exhaustive', chunks, run_chunk, run_case=run_case,
@@ -339,3 +339,13 @@ def checks():
                  'truncations, CR, LF, NUL, random bytes) x 10 newlines; '
                  'non-trivial = contains the newline and is longer than it'),
     ]
+
+
+def checks():
+    out = _checks()
+
+    for c in out:
+        if c.name in ['exhaustive']:
+            c.isolated = True
+
+    return out
